@@ -292,33 +292,55 @@ def tlc_trace(module, trace_path, cfg=None, env=None, **kw):
 def run_shards(binary, cases, args=(), nshards=None, timeout=1500, out_dir=None, env=None):
     """Run `binary --cases F --shard i/n args...` in parallel; returns list of
     decoded output records (ndjson on stdout).  A crash of a shard is returned
-    as a record {'k':'crash', 'shard':i, 'rc':rc, 'stderr':...}."""
+    as a record {'k':'crash', 'shard':i, 'rc':rc, 'stderr':...}.  Shard output goes to
+    temporary files (not pipes), so a chatty shard never stalls behind the others."""
     nshards = nshards or NCPU
     procs = []
     e = dict(os.environ)
     if env:
         e.update(env)
+    d = ensure(os.path.join(WORK, 'run'))
+    tag = '%d-%d' % (os.getpid(), random.randrange(10**9))
+    files = []
     for i in range(nshards):
         cmd = [binary, '--cases', cases, '--shard', '%d/%d' % (i, nshards)] + list(args)
-        procs.append(subprocess.Popen(cmd, stdout=subprocess.PIPE, stderr=subprocess.PIPE, env=e))
+        so = open(os.path.join(d, 'shard-%s-%d.out' % (tag, i)), 'w+b')
+        se = open(os.path.join(d, 'shard-%s-%d.err' % (tag, i)), 'w+b')
+        files.append((so, se))
+        procs.append(subprocess.Popen(cmd, stdout=so, stderr=se, env=e))
     recs = []
     deadline = time.time() + timeout
     for i, p in enumerate(procs):
+        so, se = files[i]
+        timed_out = False
         try:
-            so, se = p.communicate(timeout=max(1, deadline - time.time()))
+            p.wait(timeout=max(1, deadline - time.time()))
         except subprocess.TimeoutExpired:
             p.kill()
-            so, se = p.communicate()
-            recs.append({'k': 'crash', 'shard': i, 'rc': 'timeout', 'stderr': se.decode(errors='replace')[-2000:]})
-        for line in so.decode(errors='replace').splitlines():
+            p.wait()
+            timed_out = True
+        so.seek(0)
+        se.seek(0)
+        out = so.read()
+        err = se.read().decode(errors='replace')[-2000:]
+        for f in (so, se):
+            name = f.name
+            f.close()
+            try:
+                os.unlink(name)
+            except OSError:
+                pass
+        if timed_out:
+            recs.append({'k': 'crash', 'shard': i, 'rc': 'timeout', 'stderr': err})
+        for line in out.decode(errors='replace').splitlines():
             if not line.strip():
                 continue
             try:
                 recs.append(json.loads(line))
             except ValueError:
                 recs.append({'k': 'garbage', 'shard': i, 'line': line[:500]})
-        if p.returncode not in (0, None) and not any(r.get('k') == 'crash' and r.get('shard') == i for r in recs):
-            recs.append({'k': 'crash', 'shard': i, 'rc': p.returncode, 'stderr': se.decode(errors='replace')[-2000:]})
+        if p.returncode not in (0, None) and not timed_out:
+            recs.append({'k': 'crash', 'shard': i, 'rc': p.returncode, 'stderr': err})
     return recs
 
 
@@ -524,7 +546,7 @@ def _validate_shard(module, cfg, lines, base, tag, timeout, max_fail):
     nval = 0
     gen = dist = 0
     while off < len(lines):
-        path = os.path.join(d, 'trace-%d-%s-%d.ndjson' % (os.getpid(), tag, off))
+        path = os.path.join(d, 'trace-%d-%s-%d-%d.ndjson' % (os.getpid(), tag, off, random.randrange(10**9)))
         with open(path, 'w') as fh:
             fh.write('\n'.join(lines[off:]) + '\n')
         try:
